@@ -71,8 +71,10 @@ func (s *Service) Attest(ctx context.Context, duty *attester.Duty) ([]*phase0.At
 	}
 
 	// Set the per-validator information.
+	// The map gives the position of each validator in the duty's arrays, so it is built
+	// from the duty's validators rather than the (possibly filtered) list of those attesting.
 	validatorIndexToArrayIndexMap := make(map[phase0.ValidatorIndex]int)
-	for i, index := range validatorIndices {
+	for i, index := range duty.ValidatorIndices() {
 		validatorIndexToArrayIndexMap[index] = i
 	}
 	committeeIndices := make([]phase0.CommitteeIndex, len(validatingAccounts))
